@@ -57,6 +57,49 @@ func runC01(r *R) {
 		}
 	}
 
+	// ---- R8
+	r.Rule("C01-R8", "GetBlock tries every readable volume: Volume.Get is executed in every iteration of the volume loop (no filter before it), so a bad copy cannot prevent an intact copy elsewhere from being found", 1)
+	if fn := r.NeedFn("C01-R8", ks+".GetBlock"); fn != nil {
+		for _, g := range CallsMatching(fn, func(n string, c *ssa.CallCommon) bool { return w.IsMethodOfIface(c, ks+".Volume", "Get") }) {
+			hdr := loopHeaderOf(g.Block())
+			ok := hdr != nil
+			if ok {
+				// from the loop body's entry (successor of the header inside the body) the back edge is unreachable without the Get call
+				body := loopBody(hdr)
+				for _, s := range hdr.Succs {
+					if !body[s] {
+						continue
+					}
+					bypass := false
+					walk(entryNodes(s), nil, func(n wnode) bool {
+						if n.b == hdr {
+							bypass = true
+							return false
+						}
+						for _, in := range n.b.Instrs {
+							if in == g.(ssa.Instruction) {
+								return false
+							}
+						}
+						return body[n.b]
+					})
+					if bypass {
+						ok = false
+					}
+				}
+				// and the loop ranges over AllReadable()
+				okRange := false
+				allInstrs(fn, func(in ssa.Instruction) {
+					if c, isC := in.(*ssa.Call); isC && CalleeName(c.Common()) == "(*"+ks+".RRVolumeManager).AllReadable" {
+						okRange = true
+					}
+				})
+				ok = ok && okRange
+			}
+			r.Check(ok, "C01-R8", fn, "for each readable volume: vol.Get", g.Pos(), "no volume is skipped before being read", "a readable volume can be skipped without being read: after a checksum mismatch an intact copy on another volume may never be tried")
+		}
+	}
+
 	// ---- R2
 	r.Rule("C01-R2", "handleGET: body write and Content-Length only under GetBlock err==nil, and the slice written is buf[:size] of that call", 2)
 	if fn := r.NeedFn("C01-R2", "(*"+ks+".router).handleGET"); fn != nil {
